@@ -70,9 +70,9 @@ CHECKS = {
         design="DESIGN.md section 8 C07"),
     "C08": dict(
         technique="TLA+ scheduling layer (spec/SCSched.tla: virtual time, timers with deadlines and creation order, slow suspending actions, stop) model-checked with TLC; every edge replayed on the real asyncio Interpreter under a virtual-time event loop; divergent runs trace-validated (spec/TraceSched.tla)",
-        text="TLC explores all placements of sends, waits, deadline instants (handles of one instant in creation order) and stop() up to a depth/horizon over family X (one/two timers, equal deadlines, guarded candidates, periodic re-entry, named delays, nested and parallel owners, 100 ms suspending actions) and evaluates Prop C08 on every edge: an after transition fires only when its state has been continuously active for the delay since its most recent entry, at most once per activation, at the deadline when idle, never after exit or stop. Every edge is executed on the real async engine under virtual time and compared on configuration, queue contents, virtual now, live timers with deadlines, busy-until and the visible log.",
+        text="TLC explores all placements of sends, waits, deadline instants (handles of one instant in creation order) and stop() up to a depth/horizon over family X (one/two timers, equal deadlines, guarded candidates, periodic re-entry, named delays, nested and parallel owners, 100 ms suspending actions) and evaluates Prop C08 on every edge: an after transition fires only when its state has been continuously active for the delay since its most recent entry, at most once per activation, at the deadline when idle, never after exit or stop. Every edge is executed on the real async engine under virtual time and compared on configuration, queue contents, virtual now, live timers with deadlines, busy-until and the visible log. The same layer with EngineS = sync (timer threads that check status / owner and call send() inline at expiry) is explored over family X without coroutine actions and replayed on the real SyncInterpreter whose threading.Event / Thread are virtualised.",
         design="DESIGN.md section 8 C08",
-        note="Trusted: TLC; harness/vloop.py (virtual-time asyncio loop firing handles in (when, creation) order); the traced Interpreter subclass. Async engine only: the sync engine's timer threads are not driven deterministically by this check."),
+        note="Trusted: TLC; harness/vloop.py (virtual-time asyncio loop firing handles in (when, creation) order); harness/vthreads.py (the sync engine's timer threads parked in a virtual Event.wait and woken in (deadline, creation) order, one at a time); the traced interpreter subclasses."),
     "C09": dict(
         technique="TLA+ scheduling layer with invoked services as driver-controlled futures (resolve/reject at any driver step), TLC model checking, edge replay on the real async engine under virtual time, trace validation",
         text="Family V (one/two invocations, with and without onError, beside timers, on parent and child, onDone re-entering the invoker, slow actions): TLC explores every placement of service completion relative to queued events, slow actions, re-entry and stop; Prop C09 requires one start per entry, that no handler is driven by a result produced by an earlier activation, that a failure nobody handles sets the error status, and that no service task outlives its state or stop(). Every edge replayed under virtual time; live service tasks are part of the compared state.",
@@ -86,7 +86,7 @@ CHECKS = {
         technique="TLC model checking of lifecycle steps on the core layer (stop, repeated start, send after done/error/stopped from every reachable state, both engines) and on the scheduling layer (stop at every driver step with timers/services/slow actions pending), edge replay, trace validation",
         text="Prop C14: status moves only along uninitialized->running->(done|error)->stopped (or running->stopped); start() is a no-op while running/done/failed and refuses with InvalidConfigError on a stopped interpreter; send() after done/error/stopped changes and runs nothing; stop() is idempotent from any status and leaves no timer, service task or busy consumer, and nothing is delivered afterwards (waits and deadlines after stop are explored).",
         design="DESIGN.md section 8 C14",
-        note="Trusted: TLC, vloop, recorder. Sync engine: lifecycle on the core layer only (its timer / delayed-send threads are not driven)."),
+        note="Trusted: TLC, vloop, vthreads, recorder. Sync engine: lifecycle on the core layer and stop() with live timer threads on the scheduling layer; its delayed-send threads are not driven."),
     "C10": dict(
         technique="TLC model checking + edge replay + trace validation; completions counted as rising edges of in-final along the configuration reconstructed from entry/exit witnesses of each step",
         text="Prop C10 (spec/SCProps.tla) checks on every explored/observed step: done.state events are raised exactly for completions (literal reading as lower bound, the engine's recursive reading as upper bound), a parallel state's onDone is never taken while a region is not final, a top-level final state sets status done exactly once with the right output, nothing runs for events dequeued after completion, and sends to a done machine change nothing. Families D (completion nests), R (reactions, events queued behind completion), T.",
